@@ -58,7 +58,7 @@ THEOREMS_DOC = {
     'C10_set_line_reboot': 'through logic: reboot request sent at once (awake) or queued (smart-sleep node)',
     'C10_set_line_no_reboot_after_presentation': 'flag clear: a set from a known child gets no reply',
     'C10_node_presentation_clears_reboot': "node presentation never raises, clears that node's flag only, g_ota untouched", 'C10_session_terminates': 'Requested -> (config request) Offered -> (block request) Fetching; then no config response for the node until an update call names it'}
-SCOPE = ["S", "fw", "extra"]
+SCOPE = ["S:ota", "fw", "extra"]
 
 
 def run(ctx, res):
